@@ -1108,12 +1108,11 @@ theorem ex_mod_import : resolveSpec (jumpTableOf exFns.toList) [] rootImps "inne
     sd_libinner, so_inner_k, rootImps, joinNs]
   rfl
 
-/-- a module-prefix import through `super.` NEVER resolves: from `lib.inner.k`, with the import
-`super.sib`, the call `sib.q` looks up `lib.super.sib.sib` (namespace ++ alias ++ "." ++ text
-after the last `super.`) instead of `lib.sib.q`, although `lib.sib.q` exists. The implementation
-(`[alias, ".", s.unwrap_or(suffix)]`), the model and `Sem.resolve` all do this. -/
+/-- a module-prefix import through `super.` resolves (repaired; the pinned code looked up
+`lib.super.sib.sib` — namespace ++ alias ++ "." ++ text after the last `super.` — and never found
+`lib.sib.q`): from `lib.inner.k`, with the import `super.sib`, the call `sib.q` is `lib.sib.q`. -/
 theorem ex_mod_import_super :
-    resolveSpec (jumpTableOf exFns.toList) ["lib", "inner"] innerImps "sib.q" = .error .invalidJump ∧
+    resolveSpec (jumpTableOf exFns.toList) ["lib", "inner"] innerImps "sib.q" = .ok (15, 1) ∧
     look (jumpTableOf exFns.toList) "lib.sib.q" = some (15, 1) := by
   rw [exJt]
   refine ⟨?_, rfl⟩
@@ -1149,8 +1148,9 @@ example : ∃ j, ∃ hj : j < exFns.size, Sem.resolve (exFns.map toFnDef) 0 "inn
 example : Sem.resolve (exFns.map toFnDef) 0 "nope" = none :=
   resolve_invalidJump_sem exFns 0 (by decide) "nope" ex_unresolvable
 
-example : Sem.resolve (exFns.map toFnDef) 4 "sib.q" = none :=
-  resolve_invalidJump_sem exFns 4 (by decide) "sib.q" ex_mod_import_super.1
+example : ∃ j, ∃ hj : j < exFns.size, Sem.resolve (exFns.map toFnDef) 4 "sib.q" = some j ∧
+    exFns[j].handle = 15 ∧ (1 : UInt32) = UInt32.ofNat exFns[j].arguments.length :=
+  resolve_agrees_sound exFns 4 (by decide) "sib.q" 15 1 ex_mod_import_super.1
 
 /-! ### the one place where the two lookup orders differ
 
